@@ -147,7 +147,7 @@ def obligations():
             h = h.replace('int c = nondet_int(); __CPROVER_assume(c == 0 || c == 1);', 'int c = ENUM_C;').replace('int laps = nondet_int(); __CPROVER_assume(laps == 1 || laps == 2);', 'int laps = ENUM_LAPS;'); en = [('ENUM_C', [0, 1]), ('ENUM_LAPS', [1, 2])]
         if part == 'halfface_sheet':
             h = h.replace('int c = nondet_int(); __CPROVER_assume(c == 0 || c == 1);', 'int c = ENUM_C;').replace('int k0 = nondet_int(); __CPROVER_assume(0 <= k0 && k0 < 6);', 'int k0 = ENUM_K;'); en = [('ENUM_C', [0, 1]), ('ENUM_K', range(6))]
-        obs.append(Ob(id='C16.two_cubes.' + part, props=['C16', 'C05'], quick_for=[], tu='tethex', cfg='hex', tier='B', roots=roots, harness=h, includes=inc, copies=[TK, HK], defines=dict(HEXDEFS),
+        obs.append(Ob(id='C16.two_cubes.' + part, props=['C16', 'C05'], quick_for=['C16'], tu='tethex', cfg='hex', tier='B', roots=roots, harness=h, includes=inc, copies=[TK, HK], defines=dict(HEXDEFS),
                       inits={'tk_init': HK}, preamble_after=HEXHELP, circ_class='HexahedralMeshTopologyKernel', unwind=50, unwind_start=12, timeout=3000, prebuild_shape=100, prebuild_call='hx_two_cubes((HMESH *)&m);', enum=en,
                       bounds=dict(scenario='two hexahedra sharing a face, built natively by the extracted add_cell(8 vertices)', symbolic='reference cell, laps, sheet direction, reference halfface'),
                       note='two hexahedra built through the real add_cell(8 vertices): %s against a hand-written specification' % part))
